@@ -32,6 +32,12 @@ func init() {
 		"os.WriteFile":                          extWriteFile,
 		"os.Exit":                               extExit,
 		"os.IsNotExist":                         extIsNotExist,
+		"os.OpenFile":                           extOpenFile,
+		"os.Create":                             extCreate,
+		"(*os.File).WriteString":                extFileWriteString,
+		"(*os.File).Write":                      extFileWrite,
+		"(*os.File).Close":                      extFileClose,
+		"(*os.File).Sync":                       extFileSync,
 		"errors.Is":                             func(fr *frame, args []value) value { panic(pathAbort{"unsupported", "errors.Is"}) },
 		"(*bytes.Buffer).WriteString":           extBufWriteString,
 		"(*bytes.Buffer).WriteByte":             extBufWriteByte,
@@ -59,6 +65,10 @@ func init() {
 		"(reflect.Value).String":                extReflectString,
 		"(reflect.Value).Bool":                  extReflectBool,
 		"(reflect.Value).Pointer":               extReflectPointer,
+		"internal/reflectlite.ValueOf":          extReflectValueOf,
+		"(internal/reflectlite.Value).Len":      extReflectLen,
+		"internal/reflectlite.Swapper":          extReflectSwapper,
+		"reflect.Swapper":                       extReflectSwapper,
 		"(reflect.Value).Len":                   extReflectLen,
 		"(reflect.Value).Cap":                   extReflectCap,
 		"(reflect.Value).IsNil":                 extReflectIsNil,
@@ -628,6 +638,126 @@ func extWriteFile(fr *frame, args []value) value {
 	return iface{}
 }
 
+// osFile: an open virtual file (the target of the *os.File the engine hands out).
+// Writes go through to the virtual file system at the handle's offset, so a
+// missing O_TRUNC / O_APPEND behaves as on a real file system.
+type osFile struct {
+	name   value
+	off    int
+	app    bool
+	closed bool
+	rec    int // index of this handle's record in ps.writes
+}
+
+func (i *interpreter) openFile(name value, flag int) value {
+	const oWRONLY, oRDWR, oAPPEND, oCREATE, oEXCL, oTRUNC = 0x1, 0x2, 0x400, 0x40, 0x80, 0x200
+	if flag&(oWRONLY|oRDWR) == 0 {
+		panic(pathAbort{"unsupported", "os.OpenFile for reading (only os.ReadFile is modelled)"})
+	}
+	if i.flagged(i.ps.failWrite, name) {
+		i.ps.writes = append(i.ps.writes, fsWrite{name, "", false})
+		return tuple{(*value)(nil), i.errValue("open " + i.showStr(name) + ": permission denied")}
+	}
+	k := i.vfsFind(name)
+	switch {
+	case k < 0 && flag&oCREATE == 0:
+		return tuple{(*value)(nil), i.errValue("open " + i.showStr(name) + ": no such file or directory")}
+	case k >= 0 && flag&oCREATE != 0 && flag&oEXCL != 0:
+		return tuple{(*value)(nil), i.errValue("open " + i.showStr(name) + ": file exists")}
+	case k < 0:
+		i.vfsSet(name, "")
+	case flag&oTRUNC != 0:
+		if _, bad := i.ps.vfs[k].data.(unreadable); bad {
+			return tuple{(*value)(nil), i.errValue("open " + i.showStr(name) + ": is a directory")}
+		}
+		i.ps.vfs[k].data = ""
+	default:
+		if _, bad := i.ps.vfs[k].data.(unreadable); bad {
+			return tuple{(*value)(nil), i.errValue("open " + i.showStr(name) + ": is a directory")}
+		}
+	}
+	// creating / truncating is itself an observable write of the file
+	k = i.vfsFind(name)
+	i.ps.writes = append(i.ps.writes, fsWrite{name, i.ps.vfs[k].data, true})
+	var cell value = &osFile{name: name, app: flag&oAPPEND != 0, rec: len(i.ps.writes) - 1}
+	return tuple{&cell, iface{}}
+}
+
+func extOpenFile(fr *frame, args []value) value {
+	flag, ok := args[1].(int)
+	if !ok {
+		panic(pathAbort{"unsupported", "os.OpenFile with a symbolic flag"})
+	}
+	return fr.i.openFile(args[0], flag)
+}
+
+func extCreate(fr *frame, args []value) value {
+	return fr.i.openFile(args[0], 0x2|0x40|0x200)
+}
+
+func fileOf(args []value) *osFile {
+	p, _ := args[0].(*value)
+	if p == nil {
+		panic(rtPanic("runtime error: invalid memory address or nil pointer dereference"))
+	}
+	f, ok := (*p).(*osFile)
+	if !ok {
+		panic(pathAbort{"unsupported", "*os.File not opened through the virtual file system"})
+	}
+	return f
+}
+
+func (i *interpreter) fileWrite(f *osFile, data value) value {
+	n := strLen(data)
+	if f.closed {
+		return tuple{0, i.errValue("write " + i.showStr(f.name) + ": file already closed")}
+	}
+	k := i.vfsFind(f.name)
+	if k < 0 {
+		panic(pathAbort{"unsupported", "write to a virtual file that disappeared"})
+	}
+	cur := i.ps.vfs[k].data
+	cl := strLen(cur)
+	if f.app {
+		f.off = cl
+	}
+	if f.off > cl {
+		panic(pathAbort{"unsupported", "write beyond the end of a virtual file"})
+	}
+	out := i.strConcat(i.strSlice(cur, 0, f.off), data)
+	if f.off+n < cl {
+		out = i.strConcat(out, i.strSlice(cur, f.off+n, cl))
+	}
+	f.off += n
+	i.ps.vfs[k].data = out
+	// one record per handle: it follows the file's content
+	i.ps.writes[f.rec] = fsWrite{f.name, out, true}
+	return tuple{n, iface{}}
+}
+
+func extFileWriteString(fr *frame, args []value) value {
+	return fr.i.fileWrite(fileOf(args), args[1])
+}
+
+func extFileWrite(fr *frame, args []value) value {
+	data := conv(fr.i, types.Typ[types.String], types.NewSlice(types.Typ[types.Byte]), args[1])
+	return fr.i.fileWrite(fileOf(args), data)
+}
+
+func extFileSync(fr *frame, args []value) value {
+	fileOf(args)
+	return iface{}
+}
+
+func extFileClose(fr *frame, args []value) value {
+	f := fileOf(args)
+	if f.closed {
+		return fr.i.errValue("close " + fr.i.showStr(f.name) + ": file already closed")
+	}
+	f.closed = true
+	return iface{}
+}
+
 // unreadable marks a virtual file that exists but cannot be read.
 type unreadable struct{}
 
@@ -889,6 +1019,32 @@ func extReflectPointer(fr *frame, args []value) value {
 		}
 	}
 	panic(pathAbort{"unsupported", "reflect.Value.Pointer on " + reflectKind(t).String()})
+}
+
+// nativeFn: a function value implemented by the engine (the result of reflect.Swapper)
+type nativeFn func(fr *frame, args []value) value
+
+// reflect.Swapper / internal/reflectlite.Swapper: swaps two elements of the
+// slice in place (value copies, like the real one); sort.Slice itself is
+// interpreted from the real std source on top of it.
+func extReflectSwapper(fr *frame, args []value) value {
+	a := args[0].(iface)
+	sl, ok := a.v.([]value)
+	if a.t == nil || !ok {
+		panic(pathAbort{"unsupported", "reflect.Swapper on a non-slice"})
+	}
+	return nativeFn(func(fr *frame, args []value) value {
+		i, iok := args[0].(int)
+		j, jok := args[1].(int)
+		if !iok || !jok {
+			panic(pathAbort{"unsupported", "reflect.Swapper closure with symbolic indices"})
+		}
+		if i < 0 || j < 0 || i >= len(sl) || j >= len(sl) {
+			panic(rtPanic("reflect: slice index out of range"))
+		}
+		sl[i], sl[j] = sl[j], sl[i]
+		return nil
+	})
 }
 
 func extReflectLen(fr *frame, args []value) value {
